@@ -40,6 +40,10 @@ FIRST LAST`) {
 		PseudoKeywords[w] = true
 	}
 	for w := range PseudoKeywords {
+		// the subscript keywords are not used as names: `a[`offset`]` is read as the keyword (K4 family, scope probe)
+		if w == "OFFSET" || w == "ORDINAL" || w == "SAFE_OFFSET" || w == "SAFE_ORDINAL" {
+			continue
+		}
 		pkwList = append(pkwList, w)
 	}
 	sort.Strings(pkwList)
